@@ -84,6 +84,9 @@ def cases(tier, seed):
                         if tier == "quick" and (li + bi + ii) % 2:
                             continue
                         out.append(dict(fam="kmeans", data=dname, init=ii, thr=thr, lin=li, shift=bi, seed=seed))
+                        if thr != 0.1 and (li + 2 * bi) % 3 == 0:
+                            out.append(dict(fam="kmeans", data=dname, init=3, thr=thr, lin=li, shift=bi, seed=seed, kind="dask" if (li + bi) % 2 else "np"))
+                            out.append(dict(fam="kmeans", data=dname, init=ii, thr=thr, lin=li, shift=bi, seed=seed, reuse=True, kind="dask" if bi % 2 else "np"))
     return out
 
 
@@ -184,12 +187,34 @@ def _kmeans_case(case, c, s, o):
     X = np.array(KDATA[case["data"]], float) * s + o
     L = np.array(KLIN[case["lin"]][1], float)
     sh = np.array(BS[case["shift"]])
-    inits = [X[[0, 3]], X[[1, 5]] + 0.25 * s, np.array([X.min(axis=0) - 1.0 * s, X.mean(axis=0), X.max(axis=0) + 0.5 * s])]
+    inits = [X[[0, 3]], X[[1, 5]] + 0.25 * s, np.array([X.min(axis=0) - 1.0 * s, X.mean(axis=0), X.max(axis=0) + 0.5 * s]),
+             np.array([X[0], X[3], X.max(axis=0) + 100.0 * s])]  # the last start has a centroid that attracts nothing
     C0 = inits[case["init"]]
     T = lambda P: P @ L.T + sh  # noqa: E731
     kw = dict(max_iter=6, convergence_threshold=case["thr"])
-    A = KMeansMachine(len(C0), init_method=C0.copy(), **kw).fit(X.copy())
-    B = KMeansMachine(len(C0), init_method=T(C0), **kw).fit(T(X))
+    if case.get("kind") == "dask":
+        import dask.array as da
+
+        from mc.util import sync_dask
+
+        sync_dask()
+        mk = lambda P: da.from_array(np.array(P, float), chunks=((3, len(P) - 3), (2,)))  # noqa: E731
+    else:
+        mk = lambda P: np.array(P, float)  # noqa: E731
+
+    class _R:  # results of one fit, detached from the estimator object
+        def __init__(self, m):
+            self.centroids_, self.average_min_distance = np.array(m.centroids_, float), float(m.average_min_distance)
+
+    if case.get("reuse"):
+        # ONE estimator object (seeded random start: the same rows are drawn on both sides) trained on the data, then on the transformed data
+        M = KMeansMachine(len(C0), init_method="random", random_state=3, **kw)
+        A = _R(M.fit(mk(X)))
+        B = _R(M.fit(mk(T(X))))
+        C0 = np.array(KMeansMachine(len(C0), init_method="random", random_state=3, max_iter=0).fit(mk(X)).centroids_, float)
+    else:
+        A = _R(KMeansMachine(len(C0), init_method=C0.copy(), **kw).fit(mk(X)))
+        B = _R(KMeansMachine(len(C0), init_method=T(C0), **kw).fit(mk(T(X))))
     c.transitions += 2
     tags = dict(fam="kmeans", lin=KLIN[case["lin"]][0])
     sc = float(np.abs(L).max()) * (float(np.abs(X).max()) + 1.0)
@@ -363,7 +388,7 @@ def run_case(case):
         sig = "%s|%s|%d|%r|%s|%s|%d" % (fam, case["data"], case["start"], case["sw"], case.get("floor"), case.get("rel"), case["map"])
     elif fam == "kmeans":
         nt = _kmeans_case(case, c, s, o)
-        sig = "km|%s|%d|%s|%d|%d" % (case["data"], case["init"], case["thr"], case["lin"], case["shift"])
+        sig = "km|%s|%d|%s|%d|%d|%s|%s" % (case["data"], case["init"], case["thr"], case["lin"], case["shift"], case.get("kind"), case.get("reuse"))
     elif fam == "linear":
         nt = _linear_case(case, c, s, o)
         sig = "lin|%d|%d" % (case["cfg"], case["map"])
